@@ -70,6 +70,9 @@ for _i, _v in enumerate(VARIANTS):
     _v["A"] = _st([_f("k", U8), _f(None, _st([_f("x", U16), _f("v", {"k": "a", "t": U8, "len": ["fixed", 2]})])), _f(None, _st([_f("w", U16), _f("b", {"k": "a", "t": U8, "len": ["fixed", 2]})])), _f("z", U8 if _i else U16)])
     # a count that depends on a constant of THIS object
     _v["QK"] = _st([_f("n", U8), _f("v", {"k": "a", "t": U8, "len": ["expr", "n + K", ["bin", "+", ["id", "n"], ["id", "K"]]]}), _f("t", U16)])
+for _i, _v in enumerate(VARIANTS):
+    _v["G"] = _st([_f("cells", {"k": "a", "t": {"k": "a", "t": U8 if _i != 1 else U16, "len": ["fixed", 2]}, "len": ["fixed", 3]}),
+                   _f("corner", {"k": "a", "t": {"k": "a", "t": {"k": "ref", "n": "In"}, "len": ["fixed", 2]}, "len": ["fixed", 2]}), _f("g", U8)])
 UNION_TEXT = "union U { uint8 arr[4]; uint32 d; struct { uint16 lo; uint8 v[2]; } s; };\nstruct H { uint8 h; U u; uint8 t[2]; };\n"
 K_OF_VARIANT = [1, 2, 3]
 
@@ -99,7 +102,7 @@ def history(draw):
     for _ in range(n):
         k = draw(st.sampled_from(["default", "default", "kw", "kwpartial", "pospartial", "parse", "parse", "scratch-union", "set", "mutate", "mutate", "mutate", "dump", "flip", "loadmore", "alias", "failparse", "fresh", "enumop", "enumop"]))
         c = draw(st.integers(0, ncs - 1))
-        tname = draw(st.sampled_from(["P", "P", "Q", "W", "O1", "A", "QK"]))
+        tname = draw(st.sampled_from(["P", "P", "Q", "W", "O1", "A", "QK", "G", "G"]))
         if k in ("default", "kw", "kwpartial", "pospartial", "parse"):
             ops.append([k, c, tname, draw(st.binary(min_size=48, max_size=48)).hex()])
             ninst += 1
@@ -140,6 +143,14 @@ def _paths(sem, t, v, kinds, path=()):
                     out.append(("elem", path + (step,), j, f))
                 elif et["k"] == "st":
                     out += [(k2 if k2 != "scalar" else "nested", p2, j2, f2) for k2, p2, j2, f2 in _paths(sem, et, e, kinds, path + (step, j))]
+                elif et["k"] == "a" and isinstance(e, list):
+                    # a row of a multi-dimensional array: its elements, or the fields of its structure elements
+                    it = sem.res(et["t"])
+                    for jj, ee in enumerate(e):
+                        if it["k"] == "s":
+                            out.append(("elem", path + (step, j), jj, f))
+                        elif it["k"] == "st":
+                            out += [(k2 if k2 != "scalar" else "nested", p2, j2, f2) for k2, p2, j2, f2 in _paths(sem, it, ee, kinds, path + (step, j, jj))]
         elif ft["k"] == "st" and ft["kind"] == "struct":
             out += _paths(sem, ft, val, kinds, path + (step,))
     return out
@@ -206,7 +217,7 @@ def run_case(case, ctx):
                 z = lib(lambda: getattr(o["cs"], tname)().dumps())
                 if isinstance(z, Err) or any(z):
                     raise Violation("default-not-fresh", f"after step {step} {trace[-1]}: {tname}() of cstruct {c} dumps {z!r}, a default-constructed union / structure holding one is all zero; history: {trace}")
-            for tname in ("P", "Q", "W", "O1", "A", "QK", "In"):
+            for tname in ("P", "Q", "W", "O1", "A", "QK", "In", "G"):
                 T = getattr(o["cs"], tname)
                 z = lib(T)
                 want = refsem.canon(sem.default({"k": "ref", "n": tname}))
